@@ -1,6 +1,6 @@
 """C16 — the type space stays consistent across any history of additions (explicit-state search).
 State = history of API calls on one TypeSpace, rebuilt by replaying on the real code (a snapshot after every op).
-Breadth-first over all histories to depth d over a 19-op alphabet, with repeats. Invariants after every transition:
+Breadth-first over all histories to depth d over a 21-op alphabet, with repeats. Invariants after every transition:
  I1 every type id seen earlier still resolves with the same (name, ident, structure);
  I2 repeating a type addition returns the same ident and adds no items;
  I3 no two items of one kind+name in the rendered stream, stream parses;
@@ -24,7 +24,9 @@ def obj(props, req=()):
 
 D1 = {"P": obj({"x": INT}, ["x"]), "Labels": {"type": "array", "items": STR}, "Al": {"$ref": "#/definitions/P"},
       "W": obj({"inner": obj({"y": INT})})}
-D2 = {"Q": obj({"p": {"$ref": "#/definitions/Q2"}}), "Q2": {"type": "string", "enum": ["a", "b"]}}
+D2 = {"Q": obj({"p": {"$ref": "#/definitions/Q2"}}), "Q2": {"type": "string", "enum": ["a", "b"]},
+      # an untagged enum with an in-line enum variant: its impls depend on the variant types' own impls (finalisation order)
+      "Level": {"oneOf": [{"type": "string", "enum": ["low", "high"]}, {"type": "integer"}]}}
 D3 = {"R1": obj({"r": {"$ref": "#/definitions/R2"}}), "R2": obj({"r": {"$ref": "#/definitions/R1"}})}
 D4 = {"WInner": obj({"z": STR}, ["z"])}   # coincides with the inline type name W.inner generates in D1
 D5 = {"UsesP": obj({"p": {"$ref": "#/definitions/P"}, "ps": {"type": "array", "items": {"$ref": "#/definitions/Al"}}}, ["p"]),
@@ -48,12 +50,14 @@ OPS = {
     "T3": {"type": obj({"k": STR}), "hint": "Labels"},
     "T4": {"type": {"$ref": "#/definitions/P"}, "hint": None},
     "T5": {"type": {"oneOf": [obj({"o": INT}), {"type": "null"}]}, "hint": "Opt"},
-    "T6": {"type": obj({"k": INT}), "hint": "Root3"},   # a hinted type that takes the name a later titled root asks for
+    "T6": {"type": obj({"k": INT}), "hint": "Root3"},
+    "T7": {"type": {"$ref": "#/definitions/Level"}, "hint": None},   # resolves to a type an earlier call created (needs D2)
+    "T8": {"type": {"oneOf": [{"type": "string", "enum": ["low", "high"]}, {"type": "integer"}]}, "hint": "Level"},   # a hinted type that takes the name a later titled root asks for
 }
 ALPHABET = list(OPS)
 SUB6 = ["R1", "R3", "T1", "T3", "T4", "T5"]
 SUB_ORDER = ["R6", "R6r", "R6z", "R6a", "R2", "T1"]
-SUB_ROOTS = ["ROOT3", "T6", "ROOT2", "T1", "R2"]
+SUB_ROOTS = ["ROOT3", "T6", "ROOT2", "T1", "R2", "T7", "T8"]
 DEFINES = {"R6": set(D6), "R6r": set(D6), "R6z": {"Zest"}, "R6a": {"Apple"}, "R5": set(D5), "R1": set(D1), "R2": set(D2), "R3": set(D3), "R4": set(D4), "R12": set(D12), "ROOT1": set(D1) | {"Root1"}, "ROOT2": set(D2) | {"Root2"},
            "ROOT3": {"Root3"}}
 ROOT_TITLE = {"ROOT1": "Root1", "ROOT2": "Root2", "ROOT3": "Root3"}
@@ -65,11 +69,13 @@ INDEPENDENT = {frozenset(p) for p in [("R1", "R2"), ("R1", "R3"), ("R2", "R3"), 
                                       ("R5", "R2"), ("R5", "R3"), ("R5", "ROOT2"), ("R5", "ROOT3"), ("R5", "T5"), ("R5", "T1"),
                                       ("ROOT1", "ROOT2"), ("ROOT1", "R2"), ("ROOT2", "R1"), ("ROOT2", "R3"), ("ROOT1", "ROOT3"), ("ROOT2", "ROOT3"),
                                       ("R1", "ROOT3"), ("R2", "ROOT3"), ("R3", "ROOT3"), ("R12", "ROOT3"), ("ROOT3", "T5"), ("ROOT3", "T1")]}
-TYPE_OPS = {"T1", "T2", "T3", "T4", "T5", "T6"}
+TYPE_OPS = {"T1", "T2", "T3", "T4", "T5", "T6", "T7", "T8"}
 
 
 def enabled(hist, op):
     if op in NEEDS_D1 and not (set(hist) & PROVIDES_D1):
+        return False
+    if op == "T7" and not (set(hist) & {"R2", "R12", "ROOT2"}):
         return False
     if op == "R6a" and not (set(hist) & {"R6z"}):
         return False   # Apple refers to Zest
@@ -286,14 +292,14 @@ def execute(cases_, tier, seed):
     res.evaluations = len(cases_)
     res.extra.update({"histories": len(cases_), "commutation_checks": n_comm, "max_depth": max(len(c["history"]) for c in cases_)})
     res.samples = [c["history"] for c in cases_[:: max(1, len(cases_) // 5)]][:5]
-    res.bound = "tier=%s: all histories over the 19-op alphabet to depth %s" % (tier, "3 (and depth 4 over a 6-op, depth 3 over the 6-op ordering sub-alphabet)" if tier == "quick" else "4 (and depth 5 over an 8-op and the 6-op ordering sub-alphabet)")
+    res.bound = "tier=%s: all histories over the 21-op alphabet to depth %s" % (tier, "3 (and depth 4 over a 6-op, depth 3 over the 6-op ordering sub-alphabet)" if tier == "quick" else "4 (and depth 5 over an 8-op and the 6-op ordering sub-alphabet)")
     res.assumptions = ["histories are not extended past an op that returns Err (documented: the space is unspecified after an error)"]
     if not res.violations and (len(cases_) > 50 and (len(canon_states) < 30 or n_comm < 10)):   # a subject that breaks everything is reported through its violations, not as vacuity
         raise MachineryError("vacuity guard: states=%d commutation checks=%d" % (len(canon_states), n_comm))
     return res
 
 
-INLINE = {"T6": {"Root3"}, "T3": {"Labels"}, "R1": {"WInner"}, "R12": {"WInner"}, "ROOT1": {"WInner"}}
+INLINE = {"T8": {"Level"}, "T6": {"Root3"}, "T3": {"Labels"}, "R1": {"WInner"}, "R12": {"WInner"}, "ROOT1": {"WInner"}}
 
 
 def _late_defined(h):
